@@ -92,7 +92,10 @@ def main() -> None:
                    lambda: ta.get_idle_time_breakdown(ranks=ranks[:1], visualize=False)[0],
                    lambda: ta.get_queue_length_time_series(ranks=ranks), lambda: ta.get_memory_bw_time_series(ranks=ranks),
                    lambda: ta.get_cuda_kernel_launch_stats(ranks=ranks, visualize=False), lambda: [ta.t.get_iterations(r) for r in ranks],
-                   lambda: ta.get_profiler_steps()):
+                   lambda: ta.get_profiler_steps(),
+                   # the returned frame also carries the encoded id columns (numbering-dependent by nature): compare the decoded ones
+                   lambda: [(lambda f: None if f is None else f[["index", "ts", "dur", "s_name", "s_user_annotation"]])(
+                       ta.get_gpu_kernels_with_user_annotations(rank=r, expand_names=True)) for r in ranks]):
             try:
                 res.append(_canon(fn()))
             except Exception as ex:
